@@ -29,6 +29,8 @@ class Ctx:
         self.elem = None          # current element (hints only)
         self.outer = []           # enclosing loops' (visited/index, iterset/iterlist, elem)
         self.before = None        # rely steps: state before the suspension
+        self.contract = None      # the contract being verified (body mode)
+        self.entry_ctx = None
         self.cache = {}           # memoised definitional sets of this context
         self.mode = 'prove'       # 'prove' (body verification) | 'assume' (call site)
         self.skolems = None       # per-function skolem constants (shared dict)
@@ -61,6 +63,14 @@ class Ctx:
         if name not in self.skolems:
             self.skolems[name] = mk()
         return self.skolems[name]
+
+    def use_schema(self, name, *params):
+        """instance of a schematic precondition of the function being verified (e.g. `acyclic` at a
+        chosen candidate set): a sound fact about the ENTRY state"""
+        fn = self.contract.schemas[name][0]
+        e = Ctx(self.pre, self.pre, self.args)
+        e.defs = self.defs
+        self.defs.append(fn(e, *params))
 
     def fact(self, *fs):
         """add sound facts (lemma instances)"""
@@ -124,6 +134,7 @@ class Contract:
         self.generator = False
         self.inline_ok = False
         self.unreachable_raises = []    # exception classes that must never escape
+        self.schemas = {}               # name -> (fn(c, *params) -> Bool, mk_params() -> tuple)
         self.notes = ''
 
     # ---- builder API
@@ -155,6 +166,12 @@ class Contract:
             self._raises[cls].append((label, fn))
             if props:
                 self.label_props[label] = set(props)
+        return self
+
+    def requires_schema(self, name, fn, mk_params):
+        """a precondition universally quantified over `params` (callers prove it for fresh params;
+        the body may instantiate it)"""
+        self.schemas[name] = (fn, mk_params)
         return self
 
     def modifies(self, *fields):
